@@ -43,7 +43,20 @@ def opOracle (op : String) (c : Ctx) (x y : Dec) (iarg : Int) (o : Out) : List (
   match op with
   | "quantize" =>
     let e := iarg
-    if !(wfDec x) || x.exp - e > 100000 || e < -100000 || e > 100000 then [] else
+    if !(wfDec x) || e < -100000 || e > 100000 then [] else
+    if x.exp - e > 100000 then
+      -- rescaling by more than the package's exponent limit: a non-zero coefficient would need more than
+      -- 100001 digits, beyond every admissible precision; a zero coefficient needs one digit (finding F6)
+      if c.prec > 100000 then [] else
+      let etiny : Int := c.emin - (c.prec : Int) + 1
+      if x.coeff != 0 || e < etiny || e > c.emax then
+        (if o.d.form == .nan && o.fl == Cond.cInvalidOp then [] else
+          [("C09", "expected NaN with InvalidOperation (rescaled coefficient beyond the precision)"),
+           ("C02", "InvalidOperation, and nothing else, must be raised when the rescaled coefficient needs more than Precision digits")])
+      else
+        (if o.d == { form := .finite, neg := x.neg, exp := e, coeff := 0 } && !o.fl.invalidOp then [] else
+          [("C09", s!"zero-far-rescale: expected a zero at exponent {e}")])
+    else
     let r := quantSpec c x e
     -- the 100000-discarded-digits boundary (C09_quantize_syslimit; DESIGN.md finding F1) is excluded
     if !((ndigits x.coeff : Int) < e - x.exp || e - x.exp < 100000 ||
